@@ -30,7 +30,10 @@ RULE = ("TLC (GEN_SpatialIndex_[a-f].cfg) emits 12 lanelet families (disjoint, e
         "so every 'deferred step, then each rebuilding operation, then queries' sequence is executed; TWO-NETWORK histories: from a "
         "from_list(0) network A a second network B is derived (fork_list(cleanup 0/1), fork_network, fork_network_cut(2 cuts), "
         "fork_deepcopy) and mutated (translate_rotate, remove, add_extra; quick: a sample), then B AND A are queried, A against its "
-        "own current lanelets, and every step logs A's lanelets before / after (clause C06.Route/isolated); per family the query points are the "
+        "own current lanelets, and every step logs A's lanelets before / after (clause C06.Route/isolated); DRAW steps: the network "
+        "is drawn + rendered once / twice with MPRenderer (lanelets carry SOLID / BROAD_SOLID markings), the boundaries are logged "
+        "before and after on the 1/16 lattice (clause C06.Route/draw-moves-geometry) and the lookups get 25 extra probes around "
+        "each end corner of every lanelet (offsets 1/16, 3/16); per family the query points are the "
         "17 x 13 doubled lattice (lattice points, edge mid points, cell centres) + 3 far points grouped by TLC into position "
         "classes, and query shapes of 5 kinds (axis rectangles, quarter-turn rectangles, 3-4-5 rectangles, discs, polygons) "
         "classified by TLC (inside / overlapping / reaching / touching(-edge/-corner) / disjoint), PerClass kept per class; "
@@ -80,7 +83,7 @@ def model_check(ctx):
         mc = [ex.submit(tlc.model_check, "MC_SpatialIndex", cfg, tag(cfg), coverage=True, workers=w, xmx="3g") for cfg, w in mcs]
         dev = [ex.submit(tlc.expect_violation, "MC_SpatialIndex", "DEV_SpatialIndex_%d.cfg" % i,
                          tag("DEV_SpatialIndex_%d.cfg" % i), {6: "QueriesExact", 8: "OriginalIsolated"}.get(i, "IndexMirrors"), workers=1, xmx="1g")
-               for i in (1, 2, 3, 4, 5, 7, 8, 6)]  # 7 = DEV_DeferredRemoveKeepsPolygon (seed C06-2), 8 = DEV_ForkSharesLanelets (seed C06-5), 6 = DEV_DiscHalfRadius
+               for i in (1, 2, 3, 4, 5, 7, 8, 9, 6)]   # 9 = DEV_DrawMovesVertices (seed C06-6);  # 7 = DEV_DeferredRemoveKeepsPolygon (seed C06-2), 8 = DEV_ForkSharesLanelets (seed C06-5), 6 = DEV_DiscHalfRadius
         for f in mc:
             ctx._acc(f.result(), "holds")
         for f in dev:
@@ -128,8 +131,10 @@ def cases(ctx):
             if not full and not ctx.thorough:                            # ... and every third of the many points outside
                 points = [dict(g, pts=g["pts"][::3]) if g["cls"] == "outside" else g for g in points]
             out.append({"kind": "net", "fam": c["fam"], "lanelets": f["lanelets"], "net": f["net"], "routes": c["routes"],
-                        "cuts": f["cuts"], "extra": f["extra"], "points": points, "shapes": shapes, "src": "tlc",
-                        "obstacles": f["obstacles"] if full or forked or (ctx.thorough and len(c["routes"]) == 2) else [],
+                        "cuts": f["cuts"], "extra": f["extra"], "wedge": f["wedge"], "fine": f["fine"], "points": points,
+                        "shapes": shapes, "src": "tlc",
+                        "obstacles": f["obstacles"] if full or forked or c["routes"][-1]["r"] == "draw" or
+                        (ctx.thorough and len(c["routes"]) == 2) else [],
                         "xpolys": c["polys"]})
         elif c["kind"] == "shape":
             for r in _SHAPE_ROUTES:
@@ -178,7 +183,7 @@ def _random_cases(ctx, fams):
     for b in builders:                                                    # networks without lanelets
         for f in (None, "deepcopy", "pickle", "xml", "pb", "xml_net", "pb_net"):
             out.append({"kind": "net", "fam": "empty", "lanelets": [], "net": [], "cuts": any_f["cuts"], "obstacles": [],
-                        "extra": any_f["extra"],
+                        "extra": any_f["extra"], "wedge": [], "fine": 8,
                         "routes": [dict(zip(("r", "a"), b))] + ([{"r": f, "a": []}] if f else []),
                         "points": any_f["points"][:2], "shapes": any_f["shapes"][:3], "src": "fixed"})
     for _ in range(1500 if ctx.thorough else 150):
@@ -196,8 +201,10 @@ def _random_cases(ctx, fams):
         routes = [dict(zip(("r", "a"), rng.choice(builders)))]
         for _ in range(rng.randint(0, 3)):
             r = rng.choice(["deepcopy", "deepcopy_orig", "pickle", "xml", "pb", "xml_net", "pb_net", "remove", "translate_rotate",
-                            "remove_nortree", "remove_nortree", "add_extra", "add_extra_net"])
+                            "remove_nortree", "remove_nortree", "add_extra", "add_extra_net", "draw"])
             a = []
+            if r == "draw":
+                a = [rng.randint(1, 2)]
             if r in ("add_extra", "add_extra_net"):
                 if any(q["r"] in ("add_extra", "add_extra_net") for q in routes):
                     continue
@@ -225,7 +232,8 @@ def _random_cases(ctx, fams):
                 s = {"k": "rect", "c": c, "l": rng.randint(1, 4), "w": rng.randint(1, 3), "rot": rot}
             shapes.append({"kind": kind, "cls": "random", "shape": s})
         out.append({"kind": "net", "fam": "random", "lanelets": lls, "net": net, "routes": routes, "cuts": any_f["cuts"],
-                    "extra": any_f["extra"],
+                    "extra": any_f["extra"], "fine": 8,
+                    "wedge": [[8 * x + dx, 8 * y + dy] for q in net for x, y in q["v"] for dx in (-3, -1, 0, 1, 3) for dy in (-1, 0, 1)],
                     "points": [{"cls": "random", "pts": pts}], "shapes": shapes, "obstacles": any_f["obstacles"],
                     "src": "random"})
     return out
@@ -302,10 +310,20 @@ def a_shape(s):
     raise MachineryError("C06 alpha: unknown shape %r" % (s,))
 
 
-def a_net(net):
+def _dk(x, sc):
+    """float -> integer in units of 1/(2 sc)"""
+    v = 2.0 * sc * float(x)
+    r = round(v)
+    if abs(v - r) > 1e-9 * sc:
+        raise MachineryError("C06 alpha: coordinate %r is not on the 1/%d lattice" % (x, 2 * sc))
+    return int(r)
+
+
+def a_net(net, sc=1):
     out = []
     for la in sorted(net.lanelets, key=lambda q: q.lanelet_id):
-        ring = [[_d2(x), _d2(y)] for x, y in la.right_vertices] + [[_d2(x), _d2(y)] for x, y in la.left_vertices[::-1]]
+        ring = [[_dk(x, sc), _dk(y, sc)] for x, y in la.right_vertices] + \
+               [[_dk(x, sc), _dk(y, sc)] for x, y in la.left_vertices[::-1]]
         out.append({"id": int(la.lanelet_id), "v": ring})
     return out
 
@@ -313,6 +331,11 @@ def a_net(net):
 def _pt(p):
     import numpy as np
     return np.array([p[0] / 2.0, p[1] / 2.0])
+
+
+def _ptk(p, sc):
+    import numpy as np
+    return np.array([p[0] / (2.0 * sc), p[1] / (2.0 * sc)])
 
 
 def _rotq(q, p):
@@ -338,8 +361,12 @@ def _move_shape(m, d):
 
 
 def g_lanelets(tokens):
+    """Lattice lanelets; both boundaries carry non-dashed markings (no neighbours), so that drawing them takes the
+    'shorten the end points of the marking' path of the renderer."""
+    from commonroad.scenario.lanelet import LineMarking
     from crv import gamma
-    return [gamma.lanelet_from_polylines(t["id"], t["l"], t["r"]) for t in tokens]
+    return [gamma.lanelet_from_polylines(t["id"], t["l"], t["r"], line_marking_left_vertices=LineMarking.BROAD_SOLID,
+                                         line_marking_right_vertices=LineMarking.SOLID) for t in tokens]
 
 
 def g_obstacle(o):
@@ -457,6 +484,21 @@ def _follow(route, net, obstacles, cuts, extra):
     if r == "remove":
         net.remove_lanelet(a[0])
         return net, obstacles
+    if r == "draw":                                                       # draw + render a[0] times, fresh small figure each time
+        import matplotlib
+        matplotlib.use("Agg")
+        import matplotlib.pyplot as plt
+        from commonroad.visualization.mp_renderer import MPRenderer
+        for _ in range(a[0]):
+            fig, ax = plt.subplots(figsize=(2, 2), dpi=40)
+            try:
+                rnd = MPRenderer(ax=ax)
+                net.draw(rnd)
+                rnd.render()
+                fig.canvas.draw()
+            finally:
+                plt.close(fig)
+        return net, obstacles
     if r == "remove_nortree":                                             # deferred: the index is rebuilt by a LATER operation
         net.remove_lanelet(a[0], rtree=False)
         return net, obstacles
@@ -493,15 +535,22 @@ def _fork(route, net, cuts):
 
 
 def _exec_net(case):
+    import numpy as np
     ev = []
     routes = case["routes"]
     obstacles = [g_obstacle(o) for o in case["obstacles"]]
-    base = case["net"]
+    sc = case.get("fine", 8) if any(r["r"] == "draw" for r in routes) else 1     # draw cases live on the 1/16 lattice
+    base = [{"id": q["id"], "v": [[sc * x, sc * y] for x, y in q["v"]]} for q in case["net"]]
     net = None
     other, a_routes, a_label, a_base = None, None, None, None          # the ORIGINAL network once a second one is derived
     for i, rt in enumerate(routes):
         e = {"op": "route", "route": rt["r"], "a": rt["a"], "base": base, "routes": routes[:i + 1], "polys": [], "exc": "",
              "sig": "route/" + rt["r"]}
+        if sc != 1:
+            e["sc"] = sc
+        if rt["r"] == "draw":
+            before = [(la.lanelet_id, la.left_vertices.copy(), la.right_vertices.copy(), la.center_vertices.copy())
+                      for la in net.lanelets] if net is not None else []
         if rt["r"] in ("from_network", "fork_network_cut"):
             e["cut"] = case["cuts"][rt["a"][0] - 1]
             e["sig"] += "/" + _KIND[e["cut"]["k"]]
@@ -514,9 +563,23 @@ def _exec_net(case):
                 net = _fork(rt, other, case["cuts"])
             else:
                 net, obstacles = _follow(rt, net, obstacles, case["cuts"], case["extra"])
-            e["polys"] = a_net(net)
+            if rt["r"] == "draw":                                       # projection: are all boundary arrays bit-identical?
+                after = {la.lanelet_id: la for la in net.lanelets}
+                e["same"] = int(len(after) == len(before) and all(
+                    k in after and np.array_equal(lv, after[k].left_vertices) and np.array_equal(rv, after[k].right_vertices)
+                    and np.array_equal(cv, after[k].center_vertices) for k, lv, rv, cv in before))
+                try:
+                    e["polys"] = a_net(net, sc)
+                except MachineryError:
+                    if e["same"]:
+                        raise
+                    e["polys"] = base                                    # moved off the lattice: reported by `same`, no queries
+                    ev.append(e)
+                    return {"ev": ev}
+            else:
+                e["polys"] = a_net(net, sc)
             if other is not None:                                       # what the step did to the lanelets of the original
-                e["abase"], e["apolys"] = a_base, a_net(other)
+                e["abase"], e["apolys"] = a_base, a_net(other, sc)
                 e["sig"] = "route/%s/after-%s" % (rt["r"], a_label)
                 a_base = e["apolys"]
         except MachineryError:
@@ -529,22 +592,30 @@ def _exec_net(case):
         base = e["polys"]
     lite = len(routes) >= 3 and not case["obstacles"]
     if other is None:
-        _queries(ev, case, net, base, routes, routes[-1]["r"], obstacles, "none" if not obstacles else "full", not lite)
+        level = "none" if not obstacles else "lite" if sc != 1 and len(routes) > 1 and not case.get("full") else "full"
+        _queries(ev, case, net, base, routes, routes[-1]["r"], obstacles, level, not lite, sc)
     else:
-        _queries(ev, case, net, base, routes, routes[-1]["r"], [], "none", False)
-        _queries(ev, case, other, a_base, a_routes, "original-after-" + a_label, obstacles, "lite", True)
+        _queries(ev, case, net, base, routes, routes[-1]["r"], [], "none", False, sc)
+        _queries(ev, case, other, a_base, a_routes, "original-after-" + a_label, obstacles, "lite", True, sc)
     return {"ev": ev}
 
 
-def _queries(ev, case, net, polys, routes, label, obstacles, obs_level, with_contains):
+def _has_disc(d):
+    return d["k"] == "disc" or (d["k"] == "group" and any(m["k"] == "disc" for m in d["ms"]))
+
+
+def _queries(ev, case, net, polys, routes, label, obstacles, obs_level, with_contains, sc=1):
     """All lookups on one network; `polys` = its lanelet polygons read back just now, `routes` = ITS history."""
     import numpy as np
     motions = [r["a"] for r in routes if r["r"] == "translate_rotate"]
     common = {"route": label, "routes": routes, "polys": polys}
+    if sc != 1:
+        common["sc"] = sc
 
-    def mv_pt(p):
+    def mv_pt(p, k=sc):                 # p in doubled coordinates (k = sc) or already in fine units (k = 1) -> fine units, moved
+        p = [k * p[0], k * p[1]]
         for m in motions:
-            p = _move_pt(m, p)
+            p = _move_pt([sc * m[0], sc * m[1], m[2]], p)
         return p
 
     def mv_shape(d):
@@ -553,18 +624,24 @@ def _queries(ev, case, net, polys, routes, label, obstacles, obs_level, with_con
         return d
 
     points, shapes = case["points"], case["shapes"]
+    if sc != 1:                         # fine lattice: probes around the end corners; no discs (32-bit products in the spec)
+        shapes = [q for q in shapes if not _has_disc(q["shape"])]
+        dis = {o["id"] for o in case["obstacles"] if any(_has_disc(d) for d in o["occ"])}
+        obstacles = [ob for ob in obstacles if ob.obstacle_id not in dis]
     if not polys:                       # a network without lanelets: one lookup of each kind under its own signature
         points = [{"cls": "empty-network", "pts": [p for g in points for p in g["pts"]][:20]}]
         shapes = [dict(s, kind="any", cls="empty-network") for s in shapes[:3]]
         obstacles = []
     all_pts = []
+    if sc != 1 and polys:
+        points = points + [{"cls": "corner-wedge", "pts": case["wedge"], "fine": 1}]
     for g in points:
-        pts = [mv_pt(p) for p in g["pts"]]
+        pts = [mv_pt(p, 1 if g.get("fine") else sc) for p in g["pts"]]
         all_pts += pts
         e = dict(common, op="find_by_position", pts=pts, res=[], exc="",
                  sig="find_by_position/route=%s/%s" % (label, g["cls"]) if polys else "find_by_position/empty-network")
         try:
-            res = net.find_lanelet_by_position([_pt(p) for p in pts])
+            res = net.find_lanelet_by_position([_ptk(p, sc) for p in pts])
             e["res"] = [[int(x) for x in r] for r in res]
         except Exception as ex:
             e["exc"] = _exc(ex)
@@ -573,7 +650,7 @@ def _queries(ev, case, net, polys, routes, label, obstacles, obs_level, with_con
         e = dict(common, op="contains_points", lid=int(la.lanelet_id), pts=all_pts, res=[], exc="",
                  sig="contains_points/route=%s" % label)
         try:
-            e["res"] = [int(bool(b)) for b in la.contains_points(np.array([_pt(p) for p in all_pts]))]
+            e["res"] = [int(bool(b)) for b in la.contains_points(np.array([_ptk(p, sc) for p in all_pts]))]
         except Exception as ex:
             e["exc"] = _exc(ex)
         ev.append(e)
